@@ -48,6 +48,11 @@ CHECKS = {
          "Every ordered sequence of <=2-4 definition calls over 3 names (explicit and default slot per name; factory shapes const/fail/nil/requires X/tolerates X/injects X/injects ?X for every target incl. self, so every cyclic graph on <=3 names occurs) is followed by every sequence of <=1-3 requests (Get, InjectTo with required and optional tags, Keys, late definitions). Outcome class, instance identity, invocation counters and recursion depth must equal the reference (memoised resolver, explicit beats default, frozen after first resolution, cycle = error).",
          "Duplicate definitions of one slot are unspecified by the statement and not generated; error texts are not compared.",
          "DESIGN.md 3/C10"),
+ "C12": ("model_checking",
+         "program enumeration x stateless preemption-bounded DFS over all schedules of the real contextscope/scope code under the controlled scheduler, with a vector-clock happens-before race oracle on multi-word fields",
+         "All pairs of single operations {AppendError, Kill, Stop, IsDone, Errors}, curated two-operation threads and three-thread programs on plain, isolated, full and child scopes, plus child creation/closing after and racing with the parent's end; every schedule with <=3 (quick) / <=4 (thorough) preemptions for two threads and <=2/3 for three; oracle: no panic, error count and identity, done signal, Wait/Close report, no deadlock, no unordered conflicting access to the error slices.",
+         "Bounds as reported in evidence; word-sized fields are outside the race oracle; the shim's model of Mutex/RWMutex/WaitGroup/channels/select is trusted.",
+         "DESIGN.md 3/C12"),
  "C17": ("exploration",
          "exhaustive enumeration of ALL byte strings up to length 7 (quick) / 9 (thorough) over the 9-symbol alphabet of significant bytes, and of all rendered argument lists (<=3 arguments, 12-entry pool, 3 quoting forms, 4 separators)",
          "Totality is checked on every string; strings without quote/backslash/heredoc against a plain-word reference (per-line fields byte-for-byte, eof flags, exact stop at the newline); strings whose backslashes precede a letter or a continuation newline against the argument-count reference; every rendered list must split back to the original list and leave the next command for the next call; InjectArgs mapping is checked on every list.",
